@@ -102,6 +102,8 @@ class NamespaceMapper(MutableMapping[str, str]):
         return self.namespaces[prefix]
 
     def __setitem__(self, prefix: str, uri: str) -> None:
+        if self.namespaces.get(prefix, uri) != uri:
+            del self[prefix]  # rebinding: the prefix can't be used anymore for the old namespace
         self.namespaces[prefix] = uri
         self._reverse[uri] = prefix and prefix + ':'
 
